@@ -67,6 +67,7 @@ def parseStep (s : String) : Option BodyStep :=
       | '!' :: r' => (parseNat r').map fun (x, _) => .dbg c (some x)
       | _ => some (.dbg c none)
   | 'i' :: cs => (parseNat cs).map fun (c, _) => .isPoisoned c
+  | 'c' :: cs => (parseNat cs).map fun (c, _) => .clearPoison c
   | ['g'] => some .getKey
   | _ => none
 
